@@ -541,6 +541,15 @@ fn sorted_index_inner(ctx: &mut Ctx, state: u64, case: &J) -> Result<(), String>
             let sh = |s: &str| if s.len() > 160 { format!("{}…", &s[..160]) } else { s.to_string() };
             ctx.report.violation("model", "C07:model-pipeline-remap", format!("sorted index ({}, {n} docs): real {} model {}", opt.name(), sh(&real), sh(mt)), case.clone());
         }
+        // C07_remap_is_invert_of_permuted: the Lean specification `invert` of the corpus in its
+        // new document order is what the sorted index reads back
+        let permuted: Vec<String> = order.iter().map(|old| corpus[*old].clone()).collect();
+        let mi = ctx.model.ask(&format!("C07 invert {} {}", opt.name(), permuted.join(";")));
+        let mit = mi.split('|').next().unwrap_or("");
+        if mit != real {
+            let sh = |s: &str| if s.len() > 160 { format!("{}…", &s[..160]) } else { s.to_string() };
+            ctx.report.violation("model", "C07:model-invert-permuted", format!("sorted index ({}, {n} docs): real {} invert of the permuted corpus {}", opt.name(), sh(&real), sh(mit)), case.clone());
+        }
     }
     Ok(())
 }
